@@ -47,13 +47,13 @@ pub fn evaluate_expression(expr: &str, facts: &Facts) -> Result<Value> {
     // Could be: string literal, field reference (Order.quantity), number (100), or variable
 
     // Is it a string literal?
-    if expr.len() >= 2 {
-        let unquoted = &expr[1..expr.len() - 1];
-        if (expr.starts_with('"') && expr.ends_with('"') && !unquoted.contains('"'))
-            || (expr.starts_with('\'') && expr.ends_with('\'') && !unquoted.contains('\''))
-        {
+    for quote in ['"', '\''] {
+        // test the (ASCII) quotes before slicing: byte 1 / len-1 are char boundaries only then
+        if expr.len() >= 2 && expr.starts_with(quote) && expr.ends_with(quote) {
             let unquoted = &expr[1..expr.len() - 1];
-            return Ok(Value::String(unquoted.to_string()));
+            if !unquoted.contains(quote) {
+                return Ok(Value::String(unquoted.to_string()));
+            }
         }
     }
 
